@@ -153,12 +153,13 @@ Record chain_facts := mkChainFacts {
   cf_clone_clips : bool;          (* clone(): preformatted: slices.Clip(h.preformatted) *)
   cf_with_attrs_fresh : bool;     (* WithAttrs assigns/appends only to fields of the clone *)
   cf_with_group_fresh : bool;     (* WithGroup assigns/appends only to fields of the clone, or returns h *)
-  cf_group_returns_receiver : bool (* WithGroup is "return h" *)
+  cf_group_returns_receiver : bool; (* WithGroup is "return h" *)
+  cf_logger_fresh : bool          (* Logger.With / WithGroup return the receiver or a new &Logger{…}, never assign through the receiver *)
 }.
 Definition chain_flags (x : chain_facts) : flags :=
-  mkFlags (cf_clone_clips x) (cf_with_attrs_fresh x && cf_with_group_fresh x) (cf_group_returns_receiver x).
+  mkFlags (cf_clone_clips x) (cf_with_attrs_fresh x && cf_with_group_fresh x && cf_logger_fresh x) (cf_group_returns_receiver x).
 Definition chain_discipline (x : chain_facts) : bool :=
-  cf_clone_clips x && cf_with_attrs_fresh x && cf_with_group_fresh x.
+  cf_clone_clips x && cf_with_attrs_fresh x && cf_with_group_fresh x && cf_logger_fresh x.
 
 (** *** A concrete rendering for witnesses and for the correspondence check.
     Bytes are tokens: attribute (id, size) is one chunk [2*id+1; 0; …; 0] of [size] cells, a group
